@@ -343,6 +343,10 @@ class JakesSampleGenerator(FadingSampleGenerator):
         # self._current_time will be update after each call to the
         # `generate_more_samples` method.
         self._current_time: float = 0.0
+        # Index of the next sample that will be generated. The time of each
+        # sample is computed from this (exact) counter instead of being
+        # accumulated in floating point.
+        self._current_sample: int = 0
 
         # Update self._phi_l and self._psi_l according to self._shape
         self._set_phi_and_psi_according_to_shape()
@@ -456,15 +460,13 @@ class JakesSampleGenerator(FadingSampleGenerator):
             num_samples = 1
 
         # Generate a 1D numpy with the time samples
-        t = np.arange(
-            self._current_time,  # Start time
-            num_samples * self.Ts + self._current_time,
-            self.Ts * 1.0000000001)
+        t = (self._current_sample + np.arange(num_samples)) * self.Ts
 
         # Update the self._current_time variable with the value of the next
         # time sample that should be generated when _generate_time_samples
         # is called again.
-        self._current_time = t[-1] + self.Ts
+        self._current_sample += int(num_samples)
+        self._current_time = self._current_sample * self.Ts
 
         # Now we will change the shape of the 't' variable to an
         # appropriated shape for later use.
@@ -537,7 +539,8 @@ class JakesSampleGenerator(FadingSampleGenerator):
         num_samples : int
             How many samples to skip.
         """
-        self._current_time += num_samples * self.Ts
+        self._current_sample += int(num_samples)
+        self._current_time = self._current_sample * self.Ts
 
     def get_similar_fading_generator(self) -> Any:
         """
